@@ -112,6 +112,9 @@ Qed.
 (* no queued request is about [w] or a window below it *)
 Definition unqueued (h : heap) (w : positive) : Prop :=
   forall q cq x, findq h q = Some cq -> q_win cq = Some x -> ~ anc h x w.
+(* the drag source is not the window or anything below it *)
+Definition undragged (D : list positive) (h : heap) (w : positive) : Prop :=
+  forall d, r_drag (rx h) = Some (Some d) -> ~ In root D -> findw h root <> None -> ~ anc h d w.
 
 (* a window whose top is not the root has no requests: requests are about the root's tree *)
 Lemma unqueued_off_tree : forall D h w t ct, hinv D h -> anc h w t -> findw h t = Some ct -> w_parent ct = None ->
@@ -125,6 +128,19 @@ Proof.
   destruct (anc_linear h x t Hxt root H5) as [H|H].
   - apply Hne. symmetry. exact (anc_top h t root ct H Hft Hpt).
   - pose proof (anc_live_l h root t H) as Hl. destruct (findw h root) as [cr|] eqn:Hfr; [|congruence].
+    apply Hne. exact (anc_top h root t cr H Hfr (hi_root_parent D h HI cr Hfr)).
+Qed.
+
+Lemma undragged_off_tree : forall D h w t ct, hinv D h -> anc h w t -> findw h t = Some ct -> w_parent ct = None ->
+  t <> root -> undragged D h w.
+Proof.
+  intros D h w t ct HI Hwt Hft Hpt Hne d Hd Hn Hl Hdw.
+  destruct (hi_drag D h HI) as [od [E Ha]]. rewrite E in Hd. inversion Hd; subst od.
+  pose proof (Ha d eq_refl Hn Hl) as H5.
+  assert (Hxt : anc h d t) by exact (anc_trans h d w Hdw t Hwt).
+  destruct (anc_linear h d t Hxt root H5) as [H|H].
+  - apply Hne. symmetry. exact (anc_top h t root ct H Hft Hpt).
+  - pose proof (anc_live_l h root t H) as Hl'. destruct (findw h root) as [cr|] eqn:Hfr; [|congruence].
     apply Hne. exact (anc_top h root t cr H Hfr (hi_root_parent D h HI cr Hfr)).
 Qed.
 
@@ -184,7 +200,7 @@ Proof. intros. apply cells_by_upd_cell. Qed.
 
 (* ---- _do_hierarchy_change(REMOVE) ------------------------------------------------------------------ *)
 Lemma do_remove_spec : forall D fuel p w cw h0,
-  hinv D h0 -> findw h0 w = Some cw -> w_parent cw = Some p -> unqueued h0 w ->
+  hinv D h0 -> findw h0 w = Some cw -> w_parent cw = Some p -> unqueued h0 w -> undragged D h0 w ->
   hoare (fun h => h = h0) (do_change fuel ChRemove p w)
         (fun _ h' => hinv D h' /\ keeps h0 h' /\
                      (exists cw', findw h' w = Some cw' /\ w_parent cw' = None /\ w_next cw' = None /\
@@ -192,7 +208,7 @@ Lemma do_remove_spec : forall D fuel p w cw h0,
                      (forall a c, a <> w -> findw h0 a = Some c ->
                         exists c', findw h' a = Some c' /\ w_parent c' = w_parent c /\ w_ref c' = w_ref c)).
 Proof.
-  intros D fuel p w cw h0 HI Hw Hwp Hunq h E. subst h.
+  intros D fuel p w cw h0 HI Hw Hwp Hunq Hund h E. subst h.
   destruct (hinv_in_parent_chain D h0 w cw p HI Hw Hwp) as [cp [l [Hp [Hch [Hin Hl]]]]].
   assert (Hlt : (p < w)%positive) by exact (hi_parent_lt D h0 HI w cw p Hw Hwp).
   assert (Hpw : p <> w) by lia.
@@ -248,7 +264,7 @@ Proof.
   { unfold remove_F, remove_Fg. eapply cells_by_trans with (h2 := h3); eauto. }
   assert (HI4 : hinv D h4)
     by exact (hinv_remove D h0 h4 p w cw cp l1 l3 s (clear_focus w) (clear_focus_keeps w) (or_intror (clear_focus_focus w))
-                          HI Hw Hwp Hp Hch Hs Hunq CB).
+                          HI Hw Hwp Hp Hch Hs Hunq Hund CB).
   assert (HFw : remove_F p w s (w_next cw) w cw = set_parent (set_next cw None) None)
     by exact (rm_F_w D h0 h4 p w cw cp l1 l3 s (clear_focus w) HI Hw Hwp Hp Hch Hs CB).
   assert (Hw4 : findw h4 w = Some (set_parent (set_next cw None) None)).
